@@ -11,7 +11,7 @@ ID = "C19"
 TECHNIQUE = "grammar-based generation of Dominion JSON exports; differential test against a reference reader written from the statement; metamorphic permutations of marks / keys / Original-Modified order"
 RULE = (
     "case = export with 0..6 sessions (both layouts: Contests directly or under Cards), 0..3 cards x 0..3 contests per record, "
-    "0..5 marks per contest with repeated candidates, ranks 0..4 and IsVote flags, optional Modified block covering a subset "
+    "0..5 marks per contest with repeated candidates, ranks 0..4, IsVote flags and IsAmbiguous flags (a mark the scanner flagged and adjudication counted, or did not: what counts is IsVote), optional Modified block covering a subset "
     "of contests, session key order shuffled (so Modified may precede Original), plain or obfuscated record ids, counting "
     "groups 0..3 (a group number is a number like any other, 0 included); options use_current / enforce_rules / include_groups / pool_groups generated. Oracle: reference reader; the "
     "same export with marks permuted, keys permuted and Original/Modified swapped must give the same result. Non-trivial = a "
@@ -36,7 +36,7 @@ def _marks(draw):
     n = draw(st.integers(0, 5))
     cands = draw(st.lists(st.integers(1, 4), min_size=n, max_size=n))
     return [{"CandidateId": c, "PartyId": 0, "Rank": draw(st.sampled_from([1, 1, 2, 3, 4, 0])), "MarkDensity": 90,
-             "IsAmbiguous": False, "IsVote": draw(st.sampled_from([True, True, True, False]))} for c in cands]
+             "IsAmbiguous": draw(st.sampled_from([False, False, False, True])), "IsVote": draw(st.sampled_from([True, True, True, False]))} for c in cands]
 
 
 @st.composite
